@@ -605,10 +605,15 @@ def gen_op(r, ref, malformed, obj=False):
         return (k, [q8(r) for _ in range(r.randint(0, 5))])
     if k == 'aqd':
         n = r.randint(0, 4)
+        rng_lab = L == list(range(len(L)))
+        if rng_lab and r.random() < .5:
+            n = len(L) + r.randint(1, 2)          # larger than a range-labelled model: the native model is resized
         d = [[q8(r) if (i != j and r.random() < .6) else F(0) for j in range(n)] for i in range(n)]
-        if n and r.random() < .1:
+        if n and r.random() < (.4 if rng_lab and n > len(L) else .1):
+            # rejected for its diagonal; when the matrix is larger than the model the rejection has to come before the
+            # resize (a rejected call leaves the model unchanged): first / last / any row
             d[r.randrange(n)][r.randrange(n)] = q8(r) or F(1, 8)
-            i = r.randrange(n); d[i][i] = F(1, 2)
+            i = r.choice([0, n - 1, r.randrange(n)]); d[i][i] = F(1, 2)
         return (k, d)
     raise AssertionError(k)
 
@@ -987,6 +992,8 @@ def bqm_history(ctx, r, dt, nops, lines, expect, meta, malformed_rate, script=No
         ctx.tick(f'{k}:{via if via == "d" else "view"}' + (':raises' if exc is not None else ''))
         if exc is not None:
             ctx.tick('exc:' + type(exc).__name__)
+        if k in ('aqd', 'ala') and via == 'd' and is_range(before.labels) and len(op[1]) > len(before.labels):
+            ctx.tick(f'{k}:larger-than-range-model' + (':rejected' if exc is not None else ':resized'))
         site = ('BQM.' if via == 'd' else 'VartypeView.') + SITE[k] + ('' if dt != 'obj' else '[object]')
         if len(b.variables) != b.num_variables:
             # label list and native model out of step: any further read may abort the interpreter (D32)
